@@ -43,11 +43,13 @@ pub struct Scn {
     /// arrive inside the poll interval in which the flag is set (pinned by connection 0's accept),
     /// i.e. before the loop can have looked at the flag
     pub must_serve: Vec<usize>,
+    /// a stop flag is configured (the loop polls every 100 ms) but never set
+    pub flag_never_set: bool,
 }
 
 fn scn_json(s: &Scn) -> Value {
     json!({"idle_timeout": s.idle, "flag_set_at_ms": s.flag_ms, "workers": [s.workers.0, s.workers.1],
-        "must_serve": s.must_serve, "connections": s.conns.iter().map(|c| json!({"open_ms": c.open_ms, "close_ms": c.close_ms, "calls": c.calls, "stream_at_ms": c.stream_at_ms})).collect::<Vec<_>>()})
+        "must_serve": s.must_serve, "stop_flag_configured_but_never_set": s.flag_never_set, "connections": s.conns.iter().map(|c| json!({"open_ms": c.open_ms, "close_ms": c.close_ms, "calls": c.calls, "stream_at_ms": c.stream_at_ms})).collect::<Vec<_>>()})
 }
 
 fn scn_from(v: &Value) -> Scn {
@@ -55,6 +57,7 @@ fn scn_from(v: &Value) -> Scn {
         idle: v["idle_timeout"].as_u64().unwrap_or(0),
         flag_ms: v["flag_set_at_ms"].as_u64(),
         workers: (v["workers"][0].as_u64().unwrap_or(1) as usize, v["workers"][1].as_u64().unwrap_or(4) as usize),
+        flag_never_set: v["stop_flag_configured_but_never_set"].as_bool().unwrap_or(false),
         must_serve: v["must_serve"].as_array().map(|a| a.iter().filter_map(|x| x.as_u64()).map(|x| x as usize).collect()).unwrap_or_default(),
         conns: v["connections"]
             .as_array()
@@ -143,7 +146,7 @@ pub fn run_scenario(s: &Scn, tag: &str) -> Result<ScnOutcome, Fail> {
         initial_worker_threads: s.workers.0,
         max_worker_threads: s.workers.1,
         idle_timeout: s.idle,
-        stop_listening: s.flag_ms.map(|_| stop.clone()),
+        stop_listening: if s.flag_never_set { Some(stop.clone()) } else { s.flag_ms.map(|_| stop.clone()) },
     };
     let (rtx, rrx) = mpsc::channel();
     let a2 = addr.clone();
@@ -273,6 +276,20 @@ pub fn run_scenario(s: &Scn, tag: &str) -> Result<ScnOutcome, Fail> {
             }
         }
     }
+    // "stops accepting shortly after the flag is set": a client that connected 400 ms or more after the flag
+    // (four poll intervals) and was served nevertheless was accepted long after it (judged by repetition)
+    if let Some(tf) = t_flag {
+        for j in &obs {
+            let Some(tj) = j.connect else { continue };
+            if !j.bytes.is_empty() && tj > tf + Duration::from_millis(400) {
+                return Ok(ScnOutcome::Unserved(format!(
+                    "connection #{} connected {} ms after the stop flag was set and was still accepted and served",
+                    j.number,
+                    ms(tj, tf)
+                )));
+            }
+        }
+    }
     for &i in &s.must_serve {
         if let Some(o) = obs.iter().find(|o| o.number == i) {
             // only meaningful when the measured times confirm the plan: connection 0 accepted first,
@@ -357,41 +374,52 @@ fn fixed_family() -> Vec<Scn> {
     for workers in [(1usize, 1usize), (1, 4), (2, 100)] {
         for idle in [1u64, 2] {
             // no connection at all
-            v.push(Scn { idle, flag_ms: None, workers, conns: vec![], must_serve: vec![] });
+            v.push(Scn { idle, flag_ms: None, workers, conns: vec![], must_serve: vec![], flag_never_set: false });
             // one arriving just before the deadline
-            v.push(Scn { idle, flag_ms: None, workers, conns: vec![c(idle * 1000 - 150, idle * 1000 - 50, 1, None)], must_serve: vec![] });
+            v.push(Scn { idle, flag_ms: None, workers, conns: vec![c(idle * 1000 - 150, idle * 1000 - 50, 1, None)], must_serve: vec![], flag_never_set: false });
             // one closing at the deadline
-            v.push(Scn { idle, flag_ms: None, workers, conns: vec![c(100, idle * 1000, 1, None)], must_serve: vec![] });
+            v.push(Scn { idle, flag_ms: None, workers, conns: vec![c(100, idle * 1000, 1, None)], must_serve: vec![], flag_never_set: false });
             // long-lived across several deadlines (with a late joiner when workers allow)
             let mut conns = vec![c(100, idle * 2500, 2, None)];
             if workers.1 > 1 {
                 conns.push(c(idle * 1000 + 600, idle * 1000 + 900, 1, None));
             }
-            v.push(Scn { idle, flag_ms: None, workers, conns, must_serve: vec![] });
+            v.push(Scn { idle, flag_ms: None, workers, conns, must_serve: vec![], flag_never_set: false });
             // flag + idle timeout together
-            v.push(Scn { idle, flag_ms: Some(400), workers, conns: vec![c(100, 700, 1, None)], must_serve: vec![] });
+            v.push(Scn { idle, flag_ms: Some(400), workers, conns: vec![c(100, 700, 1, None)], must_serve: vec![], flag_never_set: false });
         }
         // stop flag only
-        v.push(Scn { idle: 0, flag_ms: Some(0), workers, conns: vec![], must_serve: vec![] });
-        v.push(Scn { idle: 0, flag_ms: Some(300), workers, conns: vec![], must_serve: vec![] });
-        v.push(Scn { idle: 0, flag_ms: Some(300), workers, conns: vec![c(50, 200, 2, None)], must_serve: vec![] });
-        v.push(Scn { idle: 0, flag_ms: Some(300), workers, conns: vec![c(100, 900, 1, None)], must_serve: vec![] });
-        v.push(Scn { idle: 0, flag_ms: Some(400), workers, conns: vec![c(100, 1000, 1, Some(395))], must_serve: vec![] });
+        v.push(Scn { idle: 0, flag_ms: Some(0), workers, conns: vec![], must_serve: vec![], flag_never_set: false });
+        v.push(Scn { idle: 0, flag_ms: Some(300), workers, conns: vec![], must_serve: vec![], flag_never_set: false });
+        v.push(Scn { idle: 0, flag_ms: Some(300), workers, conns: vec![c(50, 200, 2, None)], must_serve: vec![], flag_never_set: false });
+        v.push(Scn { idle: 0, flag_ms: Some(300), workers, conns: vec![c(100, 900, 1, None)], must_serve: vec![], flag_never_set: false });
+        v.push(Scn { idle: 0, flag_ms: Some(400), workers, conns: vec![c(100, 1000, 1, Some(395))], must_serve: vec![], flag_never_set: false });
+        if workers.1 > 1 {
+            // a stop flag that is configured but never set changes the poll interval, nothing else: a
+            // connection living across idle deadlines keeps the loop accepting, a late joiner is served
+            for idle in [1u64, 2] {
+                v.push(Scn { idle, flag_ms: None, workers, conns: vec![c(100, idle * 2500, 2, None), c(idle * 1000 + 600, idle * 1000 + 900, 1, None)], must_serve: vec![], flag_never_set: true });
+                v.push(Scn { idle, flag_ms: None, workers, conns: vec![c(idle * 1000 - 150, idle * 1000 - 50, 1, None)], must_serve: vec![], flag_never_set: true });
+            }
+            // a connection is open when the flag is set; a client that connects 500 ms later is not accepted
+            v.push(Scn { idle: 0, flag_ms: Some(300), workers, conns: vec![c(0, 1600, 1, None), c(800, 1400, 1, None)], must_serve: vec![], flag_never_set: false });
+            v.push(Scn { idle: 2, flag_ms: Some(300), workers, conns: vec![c(0, 1600, 1, None), c(900, 1400, 2, None)], must_serve: vec![], flag_never_set: false });
+        }
         if workers.1 == 1 {
             // a saturated pool: connection 1 is accepted while connection 0 occupies the only worker, the
             // flag is set, connection 0 ends - connection 1 was accepted before the flag and is served
             // to completion before listen() returns
-            v.push(Scn { idle: 0, flag_ms: Some(300), workers, conns: vec![c(0, 600, 1, None), c(100, 1000, 2, None)], must_serve: vec![1] });
-            v.push(Scn { idle: 0, flag_ms: Some(250), workers, conns: vec![c(0, 500, 1, None), c(60, 900, 1, Some(650)), c(120, 1100, 3, None)], must_serve: vec![1, 2] });
+            v.push(Scn { idle: 0, flag_ms: Some(300), workers, conns: vec![c(0, 600, 1, None), c(100, 1000, 2, None)], must_serve: vec![1], flag_never_set: false });
+            v.push(Scn { idle: 0, flag_ms: Some(250), workers, conns: vec![c(0, 500, 1, None), c(60, 900, 1, Some(650)), c(120, 1100, 3, None)], must_serve: vec![1, 2], flag_never_set: false });
         }
         if workers.1 > 1 {
             // connection 0 pins the phase of the 100 ms poll (the loop restarts its wait after every
             // accept); the flag is set 20-30 ms into a poll interval and connection 1 arrives later in
             // the same interval, before the loop can have seen the flag: it must be served
             for (flag, arrive) in [(120u64, 160u64), (225, 270), (330, 385)] {
-                v.push(Scn { idle: 0, flag_ms: Some(flag), workers, conns: vec![c(0, 1500, 1, None), c(arrive, arrive + 400, 2, None)], must_serve: vec![1] });
+                v.push(Scn { idle: 0, flag_ms: Some(flag), workers, conns: vec![c(0, 1500, 1, None), c(arrive, arrive + 400, 2, None)], must_serve: vec![1], flag_never_set: false });
             }
-            v.push(Scn { idle: 0, flag_ms: Some(500), workers, conns: vec![c(50, 1200, 1, Some(498)), c(100, 600, 3, None), c(450, 800, 1, None)], must_serve: vec![] });
+            v.push(Scn { idle: 0, flag_ms: Some(500), workers, conns: vec![c(50, 1200, 1, Some(498)), c(100, 600, 3, None), c(450, 800, 1, None)], must_serve: vec![], flag_never_set: false });
         }
     }
     v
@@ -412,7 +440,7 @@ fn scn_strategy() -> impl Strategy<Value = Scn> {
             }
             // without idle timeout and without flag listen() never returns: give it a flag
             let flag_ms = if idle == 0 { Some(flag.unwrap_or(6) * 50) } else { flag.map(|f| f * 50) };
-            Scn { idle, flag_ms, workers, conns, must_serve: vec![] }
+            Scn { idle, flag_ms, workers, conns, must_serve: vec![], flag_never_set: false }
         },
     )
 }
